@@ -156,6 +156,26 @@ func c01Struct(rc txRecipe) (fs []rep.Finding) {
 		} else if d := cmpTx(&t3, &exp, form.prev); d != "" {
 			fs = append(fs, rep.F("ReadFrom|field-lost|"+form.name, d))
 		}
+		// the same Tx value parses another transaction (fewer inputs and outputs): afterwards it
+		// is that transaction
+		{
+			other := *ref
+			other.Version ^= 0x00010001
+			if len(other.Ins) > 0 {
+				other.Ins = other.Ins[:len(other.Ins)-1]
+			}
+			if len(other.Outs) > 0 {
+				other.Outs = other.Outs[:len(other.Outs)-1]
+			}
+			if !other.Ambiguous() {
+				ob := other.Bytes(form.prev)
+				if n, err := t3.ReadFrom(bytes.NewReader(ob)); err != nil || int(n) != len(ob) {
+					fs = append(fs, rep.F("ReadFrom|into-used-tx|"+form.name, fmt.Sprintf("err=%v n=%d want %d", err, n, len(ob))))
+				} else if d := cmpTx(&t3, &other, form.prev); d != "" {
+					fs = append(fs, rep.F("ReadFrom|into-used-tx|"+form.name, d))
+				}
+			}
+		}
 		// re-serialise in the arrival format
 		var again []byte
 		if form.prev {
